@@ -939,7 +939,7 @@ def cases(tier, seed):
         sims["J2lin-PE-QUAD4"] = sims["J2voceAF-PS-mixed"] = 5
     # instantaneous steps (dt = 0 exactly) of the behaviours that combine a yield surface with Maxwell branches
     for c in _material_cfgs(2 if tier == "quick" else 3):
-        if c["branches"] != "none" and c["yield"] != "none":
+        if c["branches"] != "none" and c["yield"] != "none" and c["rate"] == "none":  # (a rate law documents that it needs dt > 0)
             out.append({"kind": "mat", **c, "depth": 2, "dt0": True})
     # the plane-stress condition is enforced by an iteration over the WHOLE batch handed to Integrate: the same paths integrated
     # one point per call (what a uniformly strained mesh, or a single material point, gives), depth 2; the oracle is unchanged
